@@ -45,12 +45,26 @@ func gen(r *vh.Rand) string {
 			b[n-1-p] ^= byte(1 + r.Intn(255))
 		}
 	}
+	if r.Chance(1, 4) {
+		// SSL 3.0 variant: only the last byte matters; bias it to the boundaries n-1, n, 255
+		if n > 0 {
+			switch r.Intn(4) {
+			case 0:
+				b[n-1] = byte(n - 1)
+			case 1:
+				b[n-1] = byte(n)
+			case 2:
+				b[n-1] = 255
+			}
+		}
+		return "rp30 " + vh.Hex(b)
+	}
 	return "rp " + vh.Hex(b)
 }
 
 func exec(op string) string {
 	f := strings.Fields(op)
-	if len(f) != 2 || f[0] != "rp" {
+	if len(f) != 2 || (f[0] != "rp" && f[0] != "rp30") {
 		return "bad-op"
 	}
 	b, ok := vh.UnHex(f[1])
@@ -58,6 +72,10 @@ func exec(op string) string {
 		return "bad-op"
 	}
 	in := append([]byte(nil), b...)
+	if f[0] == "rp30" {
+		out, good := bfe_tls.VerifRemovePaddingSSL30(in)
+		return fmt.Sprintf("%d %s", good, vh.Hex(out))
+	}
 	out, good := bfe_tls.VerifRemovePadding(in)
 	return fmt.Sprintf("%d %s", good, vh.Hex(out))
 }
